@@ -606,9 +606,14 @@ fn run_transport(
                                 verif_snapshot(verif_port, &state);
                             }
                             Err(ref e) if would_block(e) => break,
+                            // A signal: the connection is still in the backlog, ask again.
+                            Err(ref e) if interrupted(e) => continue,
                             Err(e) => {
+                                // A failed accept (out of descriptors, a connection aborted in the
+                                // backlog) says nothing about the clients already being served: keep
+                                // serving them and try again on the next listener event.
                                 error!("caught error while accepting client connections: {:?}", e);
-                                return;
+                                break;
                             }
                         }
                     }
